@@ -55,16 +55,19 @@ type Exec struct {
 	budget int64
 	steps  int64
 
-	prefix []Decision
-	pos    int
-	log    []Decision
-	model  Model
-	pend   []*Term
-	pcAll  []*Term
-	dom    map[string]*[4]uint64
-	entang map[string]bool
-	vars   map[string]*Term
-	varSeq []string
+	prefix   []Decision
+	pos      int
+	log      []Decision
+	model    Model
+	pend     []*Term
+	pcAll    []*Term
+	pcVars   [][]string
+	pcSingle []bool
+	lastRel  []*Term
+	dom      map[string]*[4]uint64
+	entang   map[string]bool
+	vars     map[string]*Term
+	varSeq   []string
 
 	harness   string
 	harnessIx int
@@ -104,6 +107,8 @@ func (e *Exec) resetPath(it WorkItem) {
 	}
 	e.pend = e.pend[:0]
 	e.pcAll = e.pcAll[:0]
+	e.pcVars = e.pcVars[:0]
+	e.pcSingle = e.pcSingle[:0]
 	e.dom = map[string]*[4]uint64{}
 	e.entang = map[string]bool{}
 	e.vars = map[string]*Term{}
@@ -276,8 +281,11 @@ func (e *Exec) addPC(c *Term) {
 		return
 	}
 	e.pcAll = append(e.pcAll, c)
-	e.pend = append(e.pend, c)
-	if smallVar(c) && !e.entang[c.v0.Name] {
+	e.pcVars = append(e.pcVars, varNames(c))
+	e.pcSingle = append(e.pcSingle, c.nv == 1)
+	if smallVar(c) {
+		// the domain is the conjunction of all single-variable constraints on the variable
+		// (exact while the variable is independent, an over-approximation once it is entangled)
 		ts, _ := e.truthSet(c)
 		*e.domOf(c.v0) = ts
 		return
@@ -285,15 +293,129 @@ func (e *Exec) addPC(c *Term) {
 	e.entangle(c)
 }
 
-func (e *Exec) flush() {
-	for _, c := range e.pend {
-		e.sol.Assert(c)
-		if e.sol2 != nil {
-			e.sol2.Assert(c)
+func varNames(c *Term) []string {
+	if c.nv == 0 {
+		return nil
+	}
+	if c.nv == 1 {
+		return []string{c.v0.Name}
+	}
+	set := map[string]*Term{}
+	CollectVars(c, set, map[*Term]bool{})
+	out := make([]string, 0, len(set))
+	for n := range set {
+		out = append(out, n)
+	}
+	return out
+}
+
+// relevant returns the constraints in the cone of influence of extra: the
+// multi-variable path-condition constraints that share variables with it,
+// transitively, plus — for every small variable in the cone — its current
+// domain (the conjunction of all single-variable constraints on it) as one
+// compact constraint. The constraints left out are satisfiable on their own
+// (the cached model satisfies the whole path condition) and mention none of
+// the cone's variables, so dropping them changes neither sat nor unsat.
+func (e *Exec) relevant(extra *Term) ([]*Term, map[string]*Term) {
+	vars := map[string]bool{}
+	for _, n := range varNames(extra) {
+		vars[n] = true
+	}
+	used := make([]bool, len(e.pcAll))
+	var out []*Term
+	for changed := true; changed; {
+		changed = false
+		for k, c := range e.pcAll {
+			if used[k] || e.pcSingle[k] {
+				continue
+			}
+			hit := false
+			for _, n := range e.pcVars[k] {
+				if vars[n] {
+					hit = true
+					break
+				}
+			}
+			if !hit {
+				continue
+			}
+			used[k] = true
+			out = append(out, c)
+			for _, n := range e.pcVars[k] {
+				if !vars[n] {
+					vars[n] = true
+					changed = true
+				}
+			}
 		}
 	}
-	e.pend = e.pend[:0]
+	want := map[string]*Term{}
+	for n := range vars {
+		v := e.vars[n]
+		if v == nil {
+			continue
+		}
+		want[n] = v
+		if v.Op == OpVar && v.W <= 8 {
+			if d := e.dom[n]; d != nil {
+				if dc := e.domTerm(v, d); dc != nil {
+					out = append(out, dc)
+				}
+			}
+		}
+	}
+	// single-variable constraints on wide variables are kept as they are
+	for k, c := range e.pcAll {
+		if e.pcSingle[k] && !used[k] && c.v0.W > 8 && vars[c.v0.Name] {
+			out = append(out, c)
+		}
+	}
+	return out, want
 }
+
+// domTerm renders a small variable's domain as a disjunction of intervals (nil when unconstrained).
+func (e *Exec) domTerm(v *Term, d *[4]uint64) *Term {
+	tt := e.tt
+	n := domSize(v.W)
+	full := true
+	for x := 0; x < n; x++ {
+		if d[x>>6]&(1<<(uint(x)&63)) == 0 {
+			full = false
+			break
+		}
+	}
+	if full {
+		return nil
+	}
+	if v.W == 0 {
+		if d[0]&1 != 0 {
+			return tt.Not(v)
+		}
+		return v
+	}
+	acc := tt.False
+	for x := 0; x < n; {
+		if d[x>>6]&(1<<(uint(x)&63)) == 0 {
+			x++
+			continue
+		}
+		y := x
+		for y+1 < n && d[(y+1)>>6]&(1<<(uint(y+1)&63)) != 0 {
+			y++
+		}
+		var iv *Term
+		if x == y {
+			iv = tt.Eq(v, tt.Const(v.W, uint64(x)))
+		} else {
+			iv = tt.And(tt.Bin(OpULe, tt.Const(v.W, uint64(x)), v), tt.Bin(OpULe, v, tt.Const(v.W, uint64(y))))
+		}
+		acc = tt.Or(acc, iv)
+		x = y + 1
+	}
+	return acc
+}
+
+func (e *Exec) flush() {}
 
 // check decides satisfiability of PC ∧ extra; on Sat the returned model is complete
 // (current model overridden by the solver's values).
@@ -314,8 +436,16 @@ func (e *Exec) check(extra *Term, prop bool) (SatResult, Model) {
 		m[extra.v0.Name] = pickFrom(ts, 256)
 		return Sat, m
 	}
-	e.flush()
-	res, sm := e.sol.Check(extra, e.vars)
+	if smallVar(extra) {
+		// domain pre-check: the domain over-approximates the feasible values of an entangled variable
+		if _, any := e.truthSet(extra); !any {
+			e.st.FrontEnd++
+			return Unsat, nil
+		}
+	}
+	rel, want := e.relevant(extra)
+	e.lastRel = rel
+	res, sm := e.sol.CheckWith(rel, extra, want)
 	if res == Sat {
 		m := e.copyModel()
 		for k, v := range sm {
@@ -565,7 +695,7 @@ func (e *Exec) assertProp(c Value, id, known string) {
 		_ = t0
 		e.lastPropSMT = e.sol.lastSMT
 		if e.sol2 != nil && res != Unknown {
-			r2, _ := e.sol2.Check(neg, nil)
+			r2, _ := e.sol2.CheckWith(e.lastRel, neg, nil)
 			if r2 != res {
 				e.xdiff++
 				e.incomplete(fmt.Sprintf("solver disagreement on %s: %v vs %v", id, res, r2))
